@@ -194,7 +194,37 @@ def run(ctx: Ctx):
            and u(n.targets[0]) == sl.slot_name(sl.adv_assign, (1,))]
     from sa.inline import Inliner as _InlF
     inl_fw = _InlF(fwd.node, rd)
-    col.ob("G13", "S4", f"{where}::finished-paths-length-frozen", len(dec) == 1 and "gather" in inl_fw.text(dec[0].value.right),
+    frozen_by_value = None
+    if len(dec) != 1:
+        # by value: the block under the eos test that re-defines the lengths is interpreted (sa/interp.py + sa/teval.py) with lengths
+        # [[3, 4], [2, 5]], sources [[1, 0], [0, 1]] and every other tensor it reads as the 'had finished' mask [[T, F], [F, T]]: the new
+        # lengths must be the old ones minus the mask gathered by source - `lens - mask.gather(1, src)`, `where(.., lens - 1, lens)` alike
+        import numpy as _np
+        from sa.interp import Interp as _Interp
+        from sa.teval import frac_array as _fa
+        lens_n, src_n = sl.slot_name(sl.adv_assign, (1,)), sl.slot_name(sl.adv_assign, (3,))
+        blocks = [n for n in own_nodes(fwd.node) if isinstance(n, ast.If) and "self.eos" in u(n.test) and n.lineno > sl.adv_assign.lineno
+                  and any(isinstance(x, ast.Assign) and any(u(t_) == lens_n for t_ in x.targets) for x in ast.walk(n))]
+        blocks.sort(key=lambda n_: n_.lineno)  # (the first one after the step: later ones freeze whole batch elements)
+        if blocks:
+            body = blocks[0].body
+            stored = {t_.id for x in ast.walk(ast.Module(body=body, type_ignores=[])) if isinstance(x, ast.Assign) for t_ in x.targets if isinstance(t_, ast.Name)}
+            free = {x.id for b_ in body for x in ast.walk(b_) if isinstance(x, ast.Name) and isinstance(x.ctx, ast.Load)} - {"torch", "self", "math", lens_n, src_n}
+            mask_ = _np.array([[True, False], [False, True]])
+            env_ = {nm: mask_.copy() for nm in free if nm not in stored or nm == lens_n}
+            env_.update({lens_n: _fa([[3, 4], [2, 5]]), src_n: _fa([[1, 0], [0, 1]])})
+            fn_ = ast.FunctionDef(name="_block", args=ast.arguments(posonlyargs=[], args=[], kwonlyargs=[], kw_defaults=[], defaults=[]),
+                                  body=list(body) + [ast.Return(value=ast.Name(id=lens_n, ctx=ast.Load()))], decorator_list=[])
+            try:
+                kind_, got_ = _Interp(tensors=True).run(fn_, env_)
+                frozen_by_value = kind_ == "return" and hasattr(got_, "shape") and [[int(v_) for v_ in r_] for r_ in _np.asarray(got_).tolist()] == [[3, 3], [2, 4]]
+            except Exception as _e:
+                import os as _os
+                if _os.environ.get("VERIF_DEBUG"):
+                    import traceback as _tb
+                    _tb.print_exc()
+                frozen_by_value = None
+    col.ob("G13", "S4", f"{where}::finished-paths-length-frozen", frozen_by_value if frozen_by_value is not None else (len(dec) == 1 and "gather" in inl_fw.text(dec[0].value.right)),
            "the length of a path that had finished before the step is not decremented back (lengths would count "
            "the re-emitted eos)", rel, dec[0].lineno if dec else fwd.line, sample=u(dec[0]) if dec else None)
     # the finished-path bookkeeping (forcing fills, length decrement) runs whenever an eos is configured - in BOTH finish_all_paths modes:
